@@ -810,7 +810,7 @@ impl Check for C03 {
 		CheckInfo {
 			id: "C03",
 			level: "exploration",
-			rule: "each case = static or streaming sound (looping DC for the gain envelope, or finite for the natural end), playback rate, callback-size sequence, simulated clock (may vanish) and a history of pause / resume / resume_at (delayed, clock) / stop / seek_to with tweens of arbitrary duration, easing and delayed start, at most one life-cycle command per gap; the systematic part enumerates every command sequence of length <= 3 over an 8-command alphabet x 3 timing classes as a workload source; non-trivial = non-silent output and >= 2 distinct states reported; distinct = hash of the per-callback reported-state sequence x sound kind",
+			rule: "each case = static or streaming sound (looping DC for the gain envelope, or finite for the natural end), playback rate, callback-size sequence, the sound's own start time (immediate, delayed, or on the simulated clock), simulated clock (may vanish) and a history of pause / resume / resume_at (delayed, clock) / stop / seek_to with tweens of arbitrary duration, easing and delayed start, at most one life-cycle command per gap; the systematic part enumerates every command sequence of length <= 3 over an 8-command alphabet x 3 timing classes as a workload source; non-trivial = non-silent output and >= 2 distinct states reported; distinct = hash of the per-callback reported-state sequence x sound kind",
 			assumptions: vec![
 				"'to within one callback': the automaton is run with every timed step one callback (+ the 4-frame interpolation window) early and two callbacks late; the reported state must lie on the forward path between the two".into(),
 				"at most one life-cycle command per gap between two callbacks (the relative order of different command kinds written in one gap is not documented)".into(),
